@@ -734,7 +734,9 @@ func (m *smodel) add(a netip.Addr, names []string) {
 
 var (
 	// the IPv4-mapped twin of the first address is a different key
-	stAddrs = []netip.Addr{netip.MustParseAddr("1.2.3.4"), netip.MustParseAddr("::1"), netip.MustParseAddr("fe80::1%eth0"), netip.MustParseAddr("::ffff:1.2.3.4"), netip.MustParseAddr("0.0.0.0")}
+	stAddrs = []netip.Addr{netip.MustParseAddr("1.2.3.4"), netip.MustParseAddr("::1"), netip.MustParseAddr("fe80::1%eth0"), netip.MustParseAddr("::ffff:1.2.3.4"), netip.MustParseAddr("0.0.0.0"),
+		// the same address in another zone is another address
+		netip.MustParseAddr("fe80::1%eth1")}
 	stNames = []string{"a.example", "A.Example", "b.example", "über.example", "ÜBER.example", "B.EXAMPLE", "c"}
 )
 
@@ -939,6 +941,8 @@ func runStorageBig(r *mon.Run, c stBig, q *int64) {
 			return netip.IPv4Unspecified() // blocklists map names to the unspecified addresses
 		case 3:
 			return netip.IPv6Unspecified()
+		case 4, 5, 6: // one link-local address in two zones and without a zone: three keys
+			return netip.MustParseAddr([]string{"fe80::1%eth0", "fe80::1%eth1", "fe80::1"}[i-4])
 		}
 		if i%2 == 0 {
 			return netip.AddrFrom4([4]byte{10, 0, byte(i >> 8), byte(i)})
